@@ -68,6 +68,16 @@ class SpecFun:
 class SpecMixin:
     spec_bind: dict = {}
 
+    def nofork_feasible(self, a) -> bool:
+        from .engine import has_quant
+
+        try:
+            if has_quant(a):
+                return True
+            return self.feasible(a)
+        except Exception:  # noqa: BLE001
+            return True
+
     def spec_eval(self, expr: str, fr, result=None, extra=None):
         node = parse_expr(expr)
         saved = self.spec_bind
@@ -127,6 +137,8 @@ class SpecMixin:
             a = self.truth(self.eval(node.args[0], fr))
             if z3.is_false(z3.simplify(a)):
                 return VBool(True)
+            if self.spec_mode and not self.nofork_feasible(a):
+                return VBool(True)  # antecedent excluded by the path condition: the consequent need not be defined here
             b = self.truth(self.eval(node.args[1], fr))
             return VBool(z3.Implies(a, b))
         if name == "iff":
